@@ -171,8 +171,8 @@ CLAIMED = {
          "handler ran, timeout when nothing was ready, RunPending returns exactly at zero) are decided on the "
          "implementation's trace by the extracted ledger oracle, which keeps its own count of operations in flight and "
          "compares it with Pending() after every line; model and implementation are compared after every line."),
-   note=("Trusted: Coq kernel, extraction, harness, kernel environment model. EINTR during the wait is not injected (no "
-         "signal delivery in the harness); the EINTR mapping in io.go is covered only by reading."),
+   note=("Trusted: Coq kernel, extraction, harness, kernel environment model. EINTR is injected only by one whole-scenario "
+         "op (signals every 5 ms into an untimed RunPending with a timer armed; judged directly, not through the model)."),
    technique="Coq proof (conserved quantity by induction over the work-list machine and over script lines); differential correspondence + extracted ledger oracle"),
  "C04": dict(
    text=("Coq theorems (8, closed) on the timer part of the loop model (sonic.Timer + internal.Timer + timerfd with an "
